@@ -190,6 +190,29 @@ def check_size_nonfinite(name, o, rng):
     return []
 
 
+def check_size_overlong_label(name, o, rng):
+    """a label that fills its field completely (no room for the terminator) is refused; a tree that accepts it must still
+    report the size it writes"""
+    target = o
+    for attr in ("_tracks", "_signals", "_platforms", "events", "channels"):
+        lst = getattr(o, attr, None)
+        if lst:
+            target = lst[0]
+            break
+    field, width = next(((f, w) for f, w in (("label", 256), ("camera_name", 32)) if isinstance(getattr(target, f, None), str)), (None, None))
+    if field is None:
+        return []
+    try:
+        setattr(target, field, "L" * width)
+        b = cc.real_write(name, o)
+        nb = cc.real_nbytes(name, o)
+    except Exception:
+        return []
+    if nb != len(b):
+        return [cc._fail("RT.size", name, f"a {width}-character {field} was accepted: nBytes = {nb} but {len(b)} bytes were written", cc.describe(name, o))]
+    return []
+
+
 CHECKS = {
     "write": lambda name, o, rng: cc.check_write(name, o),
     "build": lambda name, o, rng: cc.check_build(name, o, rng),
@@ -198,6 +221,7 @@ CHECKS = {
     "history": check_history,
     "gaps_block": check_gaps_block,
     "size_nonfinite": check_size_nonfinite,
+    "size_overlong": check_size_overlong_label,
 }
 
 
@@ -211,8 +235,10 @@ def run_recipe(recipe, checks):
             continue
         if c == "gaps_block" and recipe["kind"] != "trackblock":
             continue
-        if recipe["kind"] == "large" and c not in ("write", "roundtrip", "size_nonfinite"):
+        if recipe["kind"] == "large" and c not in ("write", "roundtrip", "size_nonfinite", "size_overlong"):
             continue            # the per-frame writers make each encoding of these cost about a second
+        if c == "size_overlong":
+            o, _ = make(recipe)
         if c == "size_nonfinite":
             o, _ = make(recipe)
             rng = random.Random(f"{recipe['seed']}:{recipe['layout']}:{recipe['index']}:{recipe.get('n')}:{recipe.get('mask')}:inf")
@@ -249,6 +275,7 @@ def run_btsstring_suite(seed, tier):
     for size in widths:
         fixed = ["", "a", "a" * (size - 1), "a" * size, "a" * (size + 1), "€", "€" * max(size - 1, 0), "€" * size, "Ā", "a\x00b", "\x81", "é", "\x00",
                  "\udc80", "a\udcff", "\ud800", "\udfff", "Â°", "Ã©", "â‚¬", "Â°" * max((size - 1) // 2, 0),
+                 "e\u0301", "Cafe\u0301", "\u212a", "\u212b", "\u037e", "A\u030a", "\ufb01", "\uff21", "ı\u0307",
                  "z" * (size - 2) + "€" if size >= 2 else "€"]
         for s in fixed:
             n += 1
